@@ -305,6 +305,18 @@ def spec_oracle(ctx, case, real, detail):
                 ctx.violation(f'value-in-force:{k[0]}', **detail, key=k, time=t, expected=want, observed=got); return
     # population split: derived lineages join the ancestral population after the split
     if split is not None:
+        # ... and ONLY the ancestral one: after the split no lineage of a derived population moves to a third population
+        # (whichever way the split itself is oriented; the generator lets no discrete event touch these keys after the split,
+        # and keys a discretised trajectory governs are left to that clause)
+        others = [q for q in case['names'] if q not in split['derived'] and q != split['ancestral']]
+        for ep in real:
+            if ep['start'] >= split['time']:
+                for p in split['derived']:
+                    for q in others:
+                        if ('m', p, q) not in discs and ep['mig'].get((p, q), 0) != 0:
+                            ctx.violation('split-derived-keeps-migrating', **detail, epoch_start=ep['start'], derived=p, third=q,
+                                          rate=ep['mig'].get((p, q), 0), expected=0)
+                            return
         for ep in real:
             if ep['start'] >= split['time']:
                 for p in split['derived']:
